@@ -8,9 +8,10 @@
   `json.loads` as the parameter `C`.  `Cursor.*` are the `JobsCursor` methods over its cached id
   list.  `groupby` resolves dotted keys through sub-mappings (fix F-7).
 -/
-import Signac.Proofs.QueryFront
+import Signac.Proofs.QueryGroup
 namespace Signac.C07
 open Signac Signac.Query
+open Signac.Query.Full (CorpusKeysNodup)
 
 /-! ### spellings -/
 
@@ -162,9 +163,38 @@ theorem groupby_prefilter (flt : JVal) (k : String) (d : JVal) (hf : falsy flt =
     | null => simp [falsy] at hf
     | _ => rfl
 
-/-- Not proved (kept as a statement; checked on every generated grouping by the brute-force
-    oracle): two different groups never carry `==` labels.  It needs that sorting by `<` makes
-    `==` labels adjacent, i.e. transitivity of Python's ordering on the labels at hand. -/
+/-- Two different groups returned by `groupby` never carry `==` labels: sorting with Python's `<`
+    puts `==` labels next to each other, so `itertools.groupby` opens one group for them
+    (`1`, `1.0`, `True` share a group; so do `[1, {"a": 2}]` and `[1.0, {"a": 2.0}]`).
+    Hypotheses: every mapping in the job data, and in the default, has distinct keys — an invariant
+    of Python dicts (`CorpusKeysNodup`, see C06) — and `groupby` returned, i.e. `sorted` did not
+    raise: the model then has checked that all labels are mutually orderable, on which Python's
+    ordering is a total preorder whose equivalence is `==` (`pyCmp_lt_trans`, `pyCmp_flip`,
+    `pyCmp_eq_iff`, `pyCmp_congr_wf` in Proofs/QueryOrder.lean and QueryValFull.lean). -/
+theorem groupby_labels_distinct (P : Params) (c : Corpus) (flt : JVal) (gk : GroupKeys)
+    (dflt : Option JVal) (gs : List (JVal × List JobId)) (hkeys : CorpusKeysNodup c)
+    (hdflt : ∀ d, dflt = some d → keysOK d = true) (h : groupby P c flt gk dflt = .ok gs) :
+    gs.Pairwise (fun g g' => pyEq g.1 g'.1 = false) :=
+  groupby_distinct hkeys hdflt h
+
+/-- Position form of `groupby_labels_distinct`: the labels of any two groups of the result, the
+    first returned before the second, are not `==`. -/
+theorem groupby_two_groups_differ (P : Params) (c : Corpus) (flt : JVal) (gk : GroupKeys)
+    (dflt : Option JVal) (g₁ g₂ : JVal × List JobId) (rest₁ rest₂ rest₃ : List (JVal × List JobId))
+    (hkeys : CorpusKeysNodup c) (hdflt : ∀ d, dflt = some d → keysOK d = true)
+    (h : groupby P c flt gk dflt = .ok (rest₁ ++ g₁ :: rest₂ ++ g₂ :: rest₃)) :
+    pyEq g₁.1 g₂.1 = false := by
+  have hp := groupby_distinct hkeys hdflt h
+  rw [List.append_assoc, List.pairwise_append] at hp
+  have := hp.2.1
+  rw [List.cons_append, List.pairwise_cons] at this
+  exact this.1 g₂ (by simp)
+
+/-- The statement without the well-formedness hypotheses.  For data as Python can hold it this is
+    `groupby_labels_distinct`; it is left open only for association lists that repeat a key (on
+    which the model's `==` is not reflexive and which no Python dict corresponds to).  No
+    counterexample is known there: labels that `sorted` accepts must be mutually orderable, and
+    ordering two lists compares their mappings with `==` in both directions. -/
 def groupby_labels_distinct_full : Prop :=
   ∀ (P : Params) (c : Corpus) (flt : JVal) (gk : GroupKeys) (dflt : Option JVal)
     (gs : List (JVal × List JobId)), groupby P c flt gk dflt = .ok gs →
@@ -187,6 +217,20 @@ def gC : Corpus :=
 /-- grouping three jobs by the nested key `n.x`: two groups, `1` and `2 == 2.0`. -/
 example : groupby P0 gC (.obj []) (.single "n.x") none
     = .ok [(.int 1, ["r"]), (.int 2, ["p", "q"])] := by rfl
+
+def gD : Corpus :=
+  [⟨"p", .obj [("x", .arr [.int 1, .obj [("a", .int 2), ("b", .null)]])], none⟩,
+   ⟨"q", .obj [("x", .arr [.bool true, .obj [("b", .null), ("a", .flt 2 0 "2.0")]])], none⟩,
+   ⟨"r", .obj [("x", .arr [.int 0, .obj [("z", .int 0)]])], none⟩,
+   ⟨"s", .obj [("x", .arr [.flt 1 0 "1.0", .obj [("a", .int 2), ("b", .null)], .int 5])], none⟩]
+
+/-- labels that are lists holding mappings: `[1, {a: 2, b: None}]` and `[True, {b: None, a: 2.0}]`
+    share a group; the hypotheses of `groupby_labels_distinct` hold and `groupby` returns. -/
+example : CorpusKeysNodup gD ∧ groupby P0 gD (.obj []) (.single "x") none
+    = .ok [(.arr [.int 0, .obj [("z", .int 0)]], ["r"]),
+           (.arr [.int 1, .obj [("a", .int 2), ("b", .null)]], ["p", "q"]),
+           (.arr [.flt 1 0 "1.0", .obj [("a", .int 2), ("b", .null)], .int 5], ["s"])] :=
+  ⟨by unfold CorpusKeysNodup; decide, by rfl⟩
 
 example : ∃ (C : CliParams) (k v : String) (j : JVal), isJsonLike k = .ok false ∧ v ≠ "!" ∧
     isJsonLike v = .ok false ∧ isRegexTok v = false ∧ cast C v = .ok j :=
